@@ -168,6 +168,23 @@ def run_type(item):
             if wrong.any():
                 j = int(np.nonzero(wrong)[0][0])
                 bad('not-increasing', 'increasing at T=%r' % float(pts[j]), 'step %.3g' % dg[j], name)
+    # elementwise: a NaN sample somewhere in the array must not change the conversion of the other samples (both directions)
+    for fn_name, fn, pts in (('forward', tc.celsius_to_mv, bpts), ('inverse', tc.mv_to_celsius, ref_forward(tab, bpts))):
+        for pos in (0, len(pts) // 2, len(pts) - 1):
+            x = np.array(pts, dtype=np.float64)
+            plain = H.guarded(lambda: np.asarray(fn(x.copy()), dtype=np.float64))
+            x[pos] = np.nan
+            withnan = H.guarded(lambda: np.asarray(fn(x.copy()), dtype=np.float64))
+            res['counters']['boundary_points'] += len(pts)
+            if plain[0] != 'ok' or withnan[0] != 'ok':
+                bad('elementwise-raised', 'values', repr((plain[:2], withnan[:2])), fn_name)
+                break
+            keep = np.arange(len(pts)) != pos
+            if not np.array_equal(plain[1][keep], withnan[1][keep], equal_nan=True):
+                j = int(np.nonzero(keep & ~((plain[1] == withnan[1]) | (np.isnan(plain[1]) & np.isnan(withnan[1]))))[0][0])
+                bad('not-elementwise', '%r at input %r' % (float(plain[1][j]), float(pts[j])),
+                    '%r when sample %d of the array is NaN' % (float(withnan[1][j]), pos), fn_name)
+                break
     # inverse over the NIST inverse range
     ilo, ihi = INV_RANGE[letter]
     ig = ilo + (ihi - ilo) * (np.arange(npts) + phase) / npts
